@@ -15,6 +15,7 @@ class Storage:
         self.seq = 0
         self.on_fetch = None        # callable(kind, tag, ids, key) -> may raise (fault) or yield (scheduler)
         self.last_sub = False
+        self.harness_error = None
         self.counts = {}
 
     def event(self, *a):
@@ -26,7 +27,14 @@ class Storage:
         c[(kind, tag)] = c.get((kind, tag), 0) + 1
         self.event(kind, tag, int(ids[0]) if len(ids) else -1, int(len(ids)), key)
         if self.on_fetch is not None:
-            self.on_fetch(kind, tag, ids, key)
+            try:
+                self.on_fetch(kind, tag, ids, key)
+            except Exception as e:
+                # only injected faults may come out of the seam; anything else is a bug of the harness itself and must end as HARNESS-ERROR,
+                # never as a violation of the system under test
+                if not type(e).__name__.startswith('Injected'):
+                    self.harness_error = e
+                raise
 
 
 def _np_index(frame):
